@@ -33,6 +33,7 @@ const (
 	miniBreak
 	miniContinue
 	miniLabelBreak // a labelled break: leaves every enclosing switch and the labelled loop
+	miniPanic      // the statement list ended in panic(...)
 )
 
 func b2i(b bool) int64 {
@@ -265,6 +266,10 @@ func (e *miniEval) run(stmts []ast.Stmt) (status int, rets []int64) {
 				e.env[id.Name]--
 			}
 		case *ast.ExprStmt:
+			if call, isC := s.X.(*ast.CallExpr); isC && core.ExprStr(call.Fun) == "panic" {
+				e.effects = append(e.effects, core.ExprStr(s.X))
+				return miniPanic, nil
+			}
 			if call, isC := s.X.(*ast.CallExpr); isC && core.ExprStr(call.Fun) == "delete" && len(call.Args) == 2 {
 				if m, ok := e.maps[core.ExprStr(call.Args[0])]; ok {
 					delete(m, e.expr(call.Args[1]))
@@ -367,7 +372,7 @@ func (e *miniEval) run(stmts []ast.Stmt) (status int, rets []int64) {
 					return miniFall, nil
 				}
 				st, r := e.run(s.Body.List)
-				if st == miniReturn {
+				if st == miniReturn || st == miniPanic {
 					return st, r
 				}
 				if st == miniBreak || st == miniLabelBreak {
@@ -389,7 +394,7 @@ func (e *miniEval) run(stmts []ast.Stmt) (status int, rets []int64) {
 							e.env[id.Name] = v
 						}
 						st, r := e.run(s.Body.List)
-						if st == miniReturn {
+						if st == miniReturn || st == miniPanic {
 							return st, r
 						}
 						if st == miniBreak || st == miniLabelBreak {
@@ -420,7 +425,7 @@ func (e *miniEval) run(stmts []ast.Stmt) (status int, rets []int64) {
 					e.bindElem(id.Name, el)
 				}
 				st, r := e.run(s.Body.List)
-				if st == miniReturn {
+				if st == miniReturn || st == miniPanic {
 					return st, r
 				}
 				if st == miniBreak || st == miniLabelBreak {
